@@ -105,6 +105,8 @@ def planted(p):
     nb = max(3, N // 12)
     knots = rng.uniform(5.0, 45.0, nb)
     T = np.interp(xfull, np.linspace(0, L, nb), knots)[:, None] + rng.normal(0, 0.3, (1, nt)) + 273.15
+    if p.get("uniform_t0") and nt >= 2:
+        T[:, 0] = 293.15   # the fibre is at one temperature during the first measurement; the structure appears later (a heating experiment)
     E = np.exp(gamma / T)
     gs, ga, gs2, ga2 = (1 + 0.05 * rng.normal(size=(4, nt)))
     st = Cp * gs * np.exp(-(ar + ap) * xfull[:, None]) * E / (E - 1)
@@ -183,9 +185,10 @@ def families(ctx):
     for k in range(12 if ctx.quick else 200):
         nx = int(rng.integers(40, 120 if ctx.quick else 300))
         dx = float(rng.choice([0.25, 0.5, 1.0, 2.0]))
-        i = int(rng.integers(-10, 11))
-        sug.append({"family": "suggest", "seed": int(rng.integers(1 << 30)), "nx": nx, "nt": int(rng.integers(1, 4)), "i": i,
-                    "dx": dx, "w": int(rng.integers(max(abs(i), 3), 13)), "perm": bool(rng.random() < 0.3), "x0": float(rng.choice([0.0, 0.5, 3.0]))})
+        i = int(rng.integers(-10, 11)) if k % 6 != 2 else 0   # incl. fibres that are already aligned
+        sug.append({"family": "suggest", "seed": int(rng.integers(1 << 30)), "nx": nx, "nt": int(rng.integers(1, 4)) if k % 4 != 1 else int(rng.integers(2, 4)), "i": i,
+                    "dx": dx, "w": int(rng.integers(max(abs(i), 3), 13)), "perm": bool(rng.random() < 0.3) or k % 6 == 2, "x0": float(rng.choice([0.0, 0.5, 3.0])),
+                    "uniform_t0": bool(k % 4 == 1)})
     return shift, comp, sug
 
 
